@@ -2365,7 +2365,7 @@ pub const NEST_FORMS: &[NestForm] = &[
 ];
 
 /// (form, units) of the witnesses listed in known_findings.json (a little above the smallest depth
-/// that overflowed a 2 MiB stack on the code before the fix; see work/c12_measure_unpatched_2048.txt).
+/// that overflowed a 2 MiB stack on the code before the fix; see evidence/C12.measurements.txt).
 pub const NEST_WITNESSES: &[(&str, u64)] = &[
     ("if", 8000),
     ("case-else", 4000),
@@ -2465,6 +2465,14 @@ fn gen_nest_case(form: usize, units: u64, ins_seed: u64) -> CaseInput {
 fn nest_probe(form: &str, units: u64, stack_kb: usize) -> i32 {
     let text = match NEST_FORMS.iter().find(|f| f.name == form) {
         Some(f) => nest_text(f, units),
+        // `--nestprobe file:<path>`: any text (composite worst cases)
+        None if form.starts_with("file:") => match std::fs::read_to_string(&form[5..]) {
+            Ok(t) => t,
+            Err(e) => {
+                eprintln!("{form}: {e}");
+                return 3;
+            }
+        },
         None => match GUARD_FORMS.iter().find(|f| f.0 == form) {
             Some((_, open, close, core, _)) => format!("PROGRAM p\nx := {}{}{};\nEND_PROGRAM\n", open.repeat(units as usize), core, close.repeat(units as usize)),
             None => {
